@@ -641,10 +641,57 @@ func c07Endless(res *fw.Result, c fw.Case) {
 	res.Sample = map[string]any{"stop": stop, "procs": procs, "k": k, "bytes_served_after_stop": served, "budget": budget}
 }
 
+// c07BadStart: the first block is rejected (unsupported required feature, corrupt header
+// blob, truncated header): the error is reported, every later Scan is false, and Close still
+// returns and leaves no goroutine behind.
+func c07BadStart(res *fw.Result, c fw.Case) {
+	r := gen.New(c.Seed, "c07badstart")
+	f := pbfw.GenFile(r, pbfw.GenOpts{MinBlocks: 3, MaxBlocks: 3, MaxGroups: 1, MaxElems: 4, SmallStrings: true})
+	dmgKind := c.Str("damage")
+	data, lay := f.Encode(map[int]pbfw.Damage{-1: {Kind: dmgKind}})
+	if dmgKind == "cut-header" {
+		data, _ = f.Encode(nil)
+		data = data[:lay.HeaderEnd/2]
+	}
+	key := "C07/pbf/badstart/" + dmgKind
+	s := osmpbf.New(context.Background(), mon.NewReader(data), int(c.Int("procs")))
+	if c.Int("header") == 1 {
+		if _, err := s.Header(); err == nil {
+			res.Violatef(key+"/header-no-error", "Header() reported no error for a rejected first block")
+		}
+	}
+	for i := 0; i < 2; i++ {
+		if s.Scan() {
+			res.Violatef(key+"/scan-true", "Scan returned true although the first block was rejected")
+		}
+	}
+	e1 := s.Err()
+	if e1 == nil {
+		res.Violatef(key+"/err-nil", "Err() is nil after the first block was rejected")
+	}
+	done := make(chan struct{})
+	go func() { s.Close(); close(done) }()
+	<-done // a Close that never returns is reported by the supervisor's watchdog as a hang
+	if e2 := s.Err(); e1 != nil && (e2 == nil || c07ErrClass(e2) == "closed") {
+		res.Violatef(key+"/err-after-close", "the error recorded before Close (%v) is no longer reported after it: %v", e1, e2)
+	}
+	s.Close()
+	if left := mon.WaitNoLibGoroutines(c07Lib, 300); len(left) > 0 {
+		res.Violate(key+"/goroutines", fmt.Sprintf("%d osmpbf goroutines alive after Close", len(left)), left)
+	}
+	res.Event(4)
+	res.Eval(fmt.Sprintf("badstart/%s/procs%d/h%d", dmgKind, c.Int("procs"), c.Int("header")))
+	res.Sample = map[string]any{"damage": dmgKind, "procs": c.Int("procs"), "header_called": c.Int("header"), "err": fmt.Sprint(e1)}
+}
+
 func c07Exec(c fw.Case) *fw.Result {
 	res := fw.NewResult()
 	if c.Kind == "endless" {
 		c07Endless(res, c)
+		return res
+	}
+	if c.Kind == "badstart" {
+		c07BadStart(res, c)
 		return res
 	}
 	target := c.Str("target")
@@ -769,6 +816,13 @@ func c07Cases(tier string, seed uint64) []fw.Case {
 			P: map[string]int64{"procs": procsList[i%4], "k": int64(i % 9), "fault": int64(2 + (i*5)%17)},
 			S: map[string]string{"target": target, "size": "small", "stop": []string{"none", "close", "cancel-self"}[i%3], "post": "SECE"}})
 	}
+	// (4b) a first block that is rejected, then Close
+	for i, d := range []string{"required-feature", "corrupt-zlib", "garbage-blob", "cut-header"} {
+		for h := int64(0); h < 2; h++ {
+			cs = append(cs, fw.Case{Kind: "badstart", Variant: "plain", Seed: gen.Sub(seed, "c07bad", i),
+				P: map[string]int64{"procs": procsList[(i+int(h))%4], "header": h}, S: map[string]string{"damage": d}})
+		}
+	}
 	// (5) endless input
 	for i := 0; i < 8; i++ {
 		cs = append(cs, fw.Case{Kind: "endless", Variant: "plain", Seed: gen.Sub(seed, "c07endless", i),
@@ -782,7 +836,7 @@ func init() {
 		ID:    "C07",
 		Level: "fault_enumeration",
 		Rule: "call histories Header? Scan×k stop post-ops for EVERY k=0..N+1 of small PBF (with and without header block) and XML inputs × stop kind {Close, cancel from the scanning goroutine, cancel from a second goroutine overlapping further Scans, cancel immediately followed by Close with a slow reader} × decoders {1,2,4,16} (race build), checked for linearizability against a sequential scanner model with porcupine; " +
-			"1000-block inputs with a counting reader for the bytes consumed after the stop; cancellation from the reader goroutine's Read callback or a timer with a slow consumer under the race detector; histories with an injected I/O error; endless input with a logical byte budget. " +
+			"1000-block inputs with a counting reader for the bytes consumed after the stop; cancellation from the reader goroutine's Read callback or a timer with a slow consumer under the race detector; histories with an injected I/O error; a rejected first block followed by Close; endless input with a logical byte budget. " +
 			"Signature = (target, stop kind, decoders, stop-position class, post-ops, fault injected).",
 		Assumptions: []string{
 			"after a complete scan followed by Close/cancel, Err may be nil or the closed/context error (both satisfy the stated precedence)",
